@@ -57,6 +57,17 @@ class LoggerVal(object):
     pass
 
 
+class _GlobalsView(object):
+    """globals(): read-only view of the module's namespace (only subscripting by a known name is modelled)"""
+    def __init__(self, it, mod):
+        self.mod = mod
+
+    def pyvc_index(self, it, key, node=None):
+        if not isinstance(key, str):
+            raise EngineError('globals()[symbolic name]')
+        return it.module_get(self.mod, key)
+
+
 class StarSym(object):
     """*args where args is a symbolic-length list"""
     def __init__(self, lst):
@@ -571,6 +582,8 @@ class Interp(object):
             return False
         if not is_str(a) and not is_int(a) and not is_boolv(a) and not isinstance(a, (tuple, frozenset)):
             return a is b        # model objects (abstract containers etc.) have python identity
+        if a is b:
+            return True          # one and the same value object handed on (only used by specifications: 'the field IS the argument')
         raise EngineError('identity of %r and %r' % (a, b))
 
     # ------------------------------------------------------------------ expressions
@@ -1221,6 +1234,8 @@ class Interp(object):
                 raise EngineError('super() outside a method')
             selfname = fn.func.node.args.args[0].arg
             return SuperVal(fn.func.owner, fn.vars[selfname])
+        if isinstance(f, ast.Name) and f.id == 'globals' and not node.args and not node.keywords:
+            return _GlobalsView(self, frame.module)
         fv = self.eval(f, frame)
         args = []
         for a in node.args:
